@@ -7,6 +7,7 @@ CONSTANTS
     Stores = {"A", "B"}
     Threshold = 1
     DrainNewStore = TRUE
+    NewStoreSend = "block"
     NCap = 3
 INVARIANTS NoChangeForgotten AtMostTwoRoundsPerInterval NoRoundWithoutNotification
 PROPERTIES RoundCarriesCurrentStore EveryChangeCovered
